@@ -7,7 +7,8 @@ import coqlit as L
 
 ID = "C05"
 COQ_PROPERTY_FILE = "Properties/C05.v"
-COQ_DEPS = ["Common/ListX.v", "Common/ObsHash.v", "Generated/Tables.v", "Model/StepCounter.v", "Proofs/StepCounterProofs.v"]
+COQ_DEPS = ["Common/ListX.v", "Common/ObsHash.v", "Generated/Tables.v", "Model/C3.v", "Model/StepCounter.v",
+            "Proofs/StepCounterProofs.v"]
 COQ_IMPORTS = "From Mesa Require Import Model.StepCounter."
 COQ_CASE_TYPE = "case"
 COQ_RUN = "run_case"
@@ -107,7 +108,10 @@ def _gen_history(rng):
         if rng.random() < 0.25:
             _add_recursion(rng, levels)
         classes.append(levels)
-        bases.append(_gen_bases(rng, depth) if depth >= 3 and rng.random() < 0.5 else None)
+        b = _gen_bases(rng, depth) if depth >= 3 and rng.random() < 0.5 else None
+        if b is not None and len(b[0]) >= 2 and rng.random() < 0.08:
+            b[0] = list(reversed(b[0]))     # an MRO that is NOT the level order (or none at all): must be refused
+        bases.append(b)
     ops = []
     inst_cls = []
     for _ in range(rng.choice([1, 2, 2, 3])):
@@ -183,6 +187,10 @@ class _Budget(Exception):
     pass
 
 
+class _BadMRO(Exception):
+    pass
+
+
 class _Driver:
     def __init__(self, case):
         import mesa
@@ -191,7 +199,12 @@ class _Driver:
         self.specs = case["classes"]
         bases = case.get("bases") or [None] * len(self.specs)
         self.depth = 0
-        self.classes = [self.mk_class(ci, lv, bases[ci]) for ci, lv in enumerate(self.specs)]
+        self.classes = []
+        for ci, lv in enumerate(self.specs):
+            try:
+                self.classes.append(self.mk_class(ci, lv, bases[ci]))
+            except (_BadMRO, TypeError):
+                self.classes.append(None)   # CPython's MRO is not the level order / cannot be built: not instantiated
         self.insts = []
         self.inst_cls = []
         self.log = []
@@ -261,7 +274,7 @@ class _Driver:
         if bases is not None and levels:
             mro = [c for c in built[0].__mro__ if c in built.values()]
             if mro != [built[k] for k in range(len(levels))]:
-                raise RuntimeError(f"the generated multiple-inheritance DAG {bases} does not linearise to the level order")
+                raise _BadMRO(f"the multiple-inheritance DAG {bases} does not linearise to the level order")
             return built[0]
         return parent
 
@@ -340,6 +353,8 @@ class _Driver:
             c = op[1]
             if not 0 <= c < len(self.classes):
                 return [-2]
+            if self.classes[c] is None:
+                return [-3]
             m = self.classes[c]()
             self.insts.append(m)
             self.inst_cls.append(c)
@@ -482,7 +497,9 @@ def _op(op):
 
 def coq_case(case):
     cs = L.lst([L.lst([_level(lv) for lv in c]) for c in case["classes"]])
-    return f"{{| c_classes := {cs}; c_ops := {L.lst([_op(o) for o in case['ops']])} |}}"
+    bases = case.get("bases") or [None] * len(case["classes"])
+    bs = L.lst([L.lst([L.zlist(b) for b in (bb or [])]) for bb in bases])
+    return f"{{| c_classes := {cs}; c_bases := {bs}; c_ops := {L.lst([_op(o) for o in case['ops']])} |}}"
 
 
 def op_kinds(case):
